@@ -13,6 +13,7 @@ import StimModel.Model.Explain
 import StimModel.Model.Flow
 import StimModel.Model.Rewrite
 import StimModel.Model.Noise
+import StimModel.Model.Text
 /-! Line-protocol dispatcher: one request line in, one answer line out. -/
 namespace Stim.Driver
 open Stim Stim.Wire
@@ -1300,6 +1301,72 @@ def noiseDem (toks : List String) : String :=
     | _, _ => "bad-request")
   | _ => "bad-request"
 
+/-! ### `text ...` (C07) -/
+open Stim.Text in
+mutual
+def toTOp : Op → TOp
+  | .instr g tag args ts => .instr g (tag.toList.map Char.toNat) (args.map ratOfBits) (ts.map (·.raw))
+  | .rep n tag body => .rep n (tag.toList.map Char.toNat) (toTOps body)
+def toTOps : List Op → List TOp
+  | [] => []
+  | o :: os => toTOp o :: toTOps os
+end
+
+/-- a parsed literal against the double the implementation produced: correctly rounded up to one unit in the last place -/
+def argClose (lit dbl : Rat) : Bool :=
+  let d := Stim.Text.rabs (lit - dbl)
+  d * (2^52 : Nat) ≤ Stim.Text.rabs lit || d * (2^1074 : Nat) ≤ 1
+
+/-- printed with six significant digits: relative error at most 5e-6 (plus the parse rounding) -/
+def argSix (orig back : Rat) : Bool :=
+  Stim.Text.rabs (orig - back) * 100000 ≤ Stim.Text.rabs orig
+
+open Stim.Text in
+mutual
+def topEq (cmp : Rat → Rat → Bool) : TOp → TOp → Bool
+  | .instr g t a ts, .instr g' t' a' ts' => g == g' && t == t' && ts == ts' && a.length == a'.length && (List.zipWith cmp a a').all id
+  | .rep n t b, .rep n' t' b' => n == n' && t == t' && topsEq cmp b b'
+  | _, _ => false
+def topsEq (cmp : Rat → Rat → Bool) : List TOp → List TOp → Bool
+  | [], [] => true
+  | o :: os, o' :: os' => topEq cmp o o' && topsEq cmp os os'
+  | _, _ => false
+end
+
+def firstDiff (a b : List Nat) : Nat := ((a.zip b).takeWhile fun (x, y) => x == y).length
+
+open Stim.Text in
+def textCmd (toks : List String) : String :=
+  match toks with
+  | "print" :: rest =>
+    (match parseCircuit rest with
+    | some (c, [hex]) =>
+      let t := toTOps c
+      let mine := printOps 0 t
+      let theirs := unhexBytes hex
+      if mine != theirs then s!"print-differs at byte {firstDiff mine theirs} model-len={mine.length} impl-len={theirs.length}"
+      else
+        -- the model's parser reads the model's print back (up to six significant digits)
+        match parseText mine with
+        | .err e => s!"printed-text-rejected-by-model-parser {e}"
+        | .ok back _ =>
+          -- expected: the input with every argument taken through print/read (six significant digits), then fused as the parser fuses
+          let expected := fuseList (roundList t) []
+          if !topsEq argSix t (roundList t) then "printed-argument-not-within-six-digits"
+          else if topsEq (fun a b => a == b) expected back then "ok" else "model-roundtrip-differs"
+    | _ => "bad-request")
+  | "parse" :: hex :: rest =>
+    let bytes := unhexBytes hex
+    (match parseText bytes, rest with
+    | .err _, ["reject"] => "ok"
+    | .err e, _ => s!"model-rejects {e}"
+    | .ok _ _, ["reject"] => "model-accepts"
+    | .ok mine _, wire =>
+      match parseCircuit wire with
+      | some (c, []) => if topsEq argClose mine (toTOps c) then "ok" else "parsed-circuit-differs"
+      | _ => "bad-request")
+  | _ => "bad-request"
+
 def answer (toks : List String) : String :=
   match toks with
   | "tsim" :: "check" :: rest => tsimCheck rest
@@ -1322,6 +1389,7 @@ def answer (toks : List String) : String :=
   | "circ" :: "qcoords" :: rest => circQCoords rest
   | "explain" :: "check" :: rest => explainCheck rest
   | "flow" :: rest => flowCmd rest
+  | "text" :: rest => textCmd rest
   | "noise" :: "check" :: rest => noiseCheck rest
   | "noise" :: "dem" :: rest => noiseDem rest
   | "gencode" :: "check" :: rest => gencodeCheck rest
